@@ -75,6 +75,9 @@ var c12Reqs = []c12Req{
 	{"v-typed-merge-a", `query($as:String){ node(as:$as) { peer(as:"B") { id } ... on A { peer(as:"B") { ... on B { bOnly } } } ... on C { peer(as:"B") { name } } } }`, map[string]interface{}{"as": "A"}, nil, "valid", nil},
 	{"v-typed-merge-c", `query($as:String){ node(as:$as) { peer(as:"B") { id } ... on A { peer(as:"B") { ... on B { bOnly } } } ... on C { peer(as:"B") { name } } } }`, map[string]interface{}{"as": "C"}, nil, "valid", nil},
 	{"v-typed-merge-b", `query($as:String){ node(as:$as) { peer(as:"B") { id } ... on A { peer(as:"B") { ... on B { bOnly } } } ... on C { peer(as:"B") { name } } } }`, map[string]interface{}{"as": "B"}, nil, "valid", nil},
+	{"v-obj-merge-a", `query($as:String){ node(as:$as) { meta { s } ... on A { meta { i } } ... on C { meta { f b } } } }`, map[string]interface{}{"as": "A"}, nil, "valid", nil},
+	{"v-obj-merge-b", `query($as:String){ node(as:$as) { meta { s } ... on A { meta { i } } ... on C { meta { f b } } } }`, map[string]interface{}{"as": "B"}, nil, "valid", nil},
+	{"v-obj-merge-c", `query($as:String){ node(as:$as) { meta { s } ... on A { meta { i } } ... on C { meta { f b } } } }`, map[string]interface{}{"as": "C"}, nil, "valid", nil},
 	{"s-defaults", `{ __type(name:"Query") { fields { name args { name defaultValue } } } f: __type(name:"Filter") { inputFields { name defaultValue } } }`, nil, nil, "introspection", nil},
 	{"s-types", `{ __schema { types { name kind } } }`, nil, nil, "introspection", nil},
 	{"s-iface", `{ __type(name:"Node") { fields { name args { name type { name } } } possibleTypes { name } } }`, nil, nil, "introspection", nil},
